@@ -535,7 +535,7 @@ func (fc *FnCtx) readFieldSpec(st *State, base Val, i int) Val {
 		return Val{sel(fc.comp(st, k, ks), base.T), f.Type()}
 	}
 	if isOpaqueStruct(sT) {
-		return Val{fc.smt.zero(f.Type()), f.Type()}
+		return fc.opaqueField(nil, base, sT, f)
 	}
 	ss := fc.smt.structSort(sT, su)
 	return Val{"(" + ss.sels[i] + " " + base.T + ")", f.Type()}
